@@ -1160,7 +1160,7 @@ class BatchNormLayer(OpDef):
     by the documented rule for the given momentum (a number in (0,1), the end points 0 = never moved and 1 = replaced, or
     None = cumulative average), then an eval forward whose output is the result"""
     name = "batch_norm_layer"
-    props = ("C06",)
+    props = ("C06", "C10")
 
     def configs(self, tier):
         out = []
